@@ -93,6 +93,16 @@ Theorem policy_no_UB : forall m (vf : list vlist) h id o prev cur,
 Proof. exact policy_step_in_range_lemma. Qed.
 Print Assumptions policy_no_UB.
 
+(* POMDP::Policy is a (deterministic) distribution over actions at every horizon: getActionProbability is
+   0 or 1, is 1 at the action sampleAction returns, and sums to one over any action space containing it. *)
+Theorem policy_prob_is_distribution : forall vf h b A a' id,
+  policy_first vf h b = Some (a', id) -> (a' < A)%nat ->
+  (forall a, policy_prob vf h b a == 1 \/ policy_prob vf h b a == 0) /\
+  policy_prob vf h b a' == 1 /\
+  qsum (map (policy_prob vf h b) (seq 0 A)) == 1.
+Proof. exact policy_prob_is_distribution_lemma. Qed.
+Print Assumptions policy_prob_is_distribution.
+
 (* The boolean checker the oracle runs on the IMPLEMENTATION's value functions is sound for the
    exact case (tolerance 0): accepted entries are plans. *)
 Theorem check_entry_sound : forall m prev e, check_entry 0 m prev e = true -> entry_is_plan m prev e.
